@@ -99,7 +99,13 @@ pub fn decode_case(data: &[u8]) -> Case {
             9 | 10 => Op::Remove { k },
             11..=13 => Op::Get { k },
             14 => Op::GetMut { k, write: if b(u) % 2 == 0 { Some(tag(u)) } else { None } },
-            15 => Op::GetTtl { k },
+            15 => {
+                if b(u) % 3 == 0 {
+                    Op::GetHold { k, dt: pick(u, &[0i64, 1, 1_000_000, NS - 1, NS, NS + 1, 2 * NS, 10 * NS]) }
+                } else {
+                    Op::GetTtl { k }
+                }
+            }
             16 => Op::UpdateMaxCost { m: pick(u, &[max_cost, (max_cost / 2).max(1), max_cost.saturating_mul(2), 1, (max_cost - internal).max(1)]) },
             17 => Op::Clear { pre: (b(u) % 3) as usize },
             18 => Op::Wait,
